@@ -166,7 +166,12 @@ func genStep(p *Profile, cfg *Config) *rapid.Generator[[]Op] {
 			ops = append(ops, Op{K: "adv", Ns: rapid.SampledFrom([]int64{1, 1e6, 3e6}).Draw(t, "sw2")}, Op{K: "state", Idx: 1, St: 2})
 			return append(ops, Op{K: "adv", Mode: 1, Idx: -1, Eps: rapid.SampledFrom([]int{0, 1, 1000000}).Draw(t, "seps")}, Op{K: "done", Idx: -1, Out: 2}, Op{K: "done", Idx: -1, Out: 2})
 		case "readyrepl":
-			return []Op{{K: "state", Sel: 1, Idx: rapid.IntRange(0, 3).Draw(t, "ri"), St: 2}}
+			ri := rapid.IntRange(0, 3).Draw(t, "ri")
+			if rapid.IntRange(0, 3).Draw(t, "replfails") == 0 {
+				// the replacement's first attempt fails: TRANSIENT_FAILURE, then (after gRPC's backoff) IDLE, then it connects
+				return []Op{{K: "state", Sel: 1, Idx: ri, St: 1}, {K: "state", Sel: 1, Idx: ri, St: 3}, {K: "state", Sel: 1, Idx: ri, St: 0}, {K: "state", Sel: 1, Idx: ri, St: 1}, {K: "state", Sel: 1, Idx: ri, St: 2}}
+			}
+			return []Op{{K: "state", Sel: 1, Idx: ri, St: 2}}
 		case "staledown":
 			// a slot leaves READY (home or stand-in fails)
 			return []Op{{K: "state", Sel: 0, Idx: rapid.IntRange(0, 5).Draw(t, "si"), St: rapid.SampledFrom([]int{1, 3, 0}).Draw(t, "sst")}}
